@@ -9,8 +9,9 @@
 namespace vh {
 struct AelTrace {
   std::string buf;
-  long nitems = 0, nedges = 0, njoined = 0, nhorz = 0;
-  void clear() { buf.clear(); nitems = 0; }
+  long nitems = 0, nedges = 0, njoined = 0, nhorz = 0, njoin_events = 0, njoin_checked = 0;
+  std::string bad_join;   // set when the engine joins two edges that are nowhere within 2 units of each other
+  void clear() { buf.clear(); nitems = 0; bad_join.clear(); }
 };
 inline AelTrace& ael_trace() { static thread_local AelTrace t; return t; }
 
@@ -35,6 +36,26 @@ inline void ael_snapshot(const Clipper2Lib::ClipperBase* c) {
   }
   t.nitems++;
 }
+// exact squared distance test between two segments (coordinates up to 2^30 in magnitude: every product fits __int128)
+namespace joincheck {
+typedef __int128 i128;
+inline bool pt_seg_within(const Clipper2Lib::Point64& p, const Clipper2Lib::Point64& a, const Clipper2Lib::Point64& b, i128 r2) {
+  i128 dx = (i128)b.x - a.x, dy = (i128)b.y - a.y, px = (i128)p.x - a.x, py = (i128)p.y - a.y;
+  i128 len2 = dx * dx + dy * dy, t = px * dx + py * dy;
+  if (len2 == 0 || t <= 0) return px * px + py * py <= r2;
+  if (t >= len2) { i128 qx = (i128)p.x - b.x, qy = (i128)p.y - b.y; return qx * qx + qy * qy <= r2; }
+  i128 cr = px * dy - py * dx;
+  return cr * cr <= r2 * len2;
+}
+inline int sgn(i128 v) { return v > 0 ? 1 : v < 0 ? -1 : 0; }
+inline bool segs_cross(const Clipper2Lib::Point64& a, const Clipper2Lib::Point64& b, const Clipper2Lib::Point64& c, const Clipper2Lib::Point64& d) {
+  auto cr = [](const Clipper2Lib::Point64& p, const Clipper2Lib::Point64& q, const Clipper2Lib::Point64& r) {
+    return ((i128)q.x - p.x) * ((i128)r.y - p.y) - ((i128)q.y - p.y) * ((i128)r.x - p.x); };
+  return sgn(cr(a, b, c)) * sgn(cr(a, b, d)) <= 0 && sgn(cr(c, d, a)) * sgn(cr(c, d, b)) <= 0;
+}
+inline bool small(const Clipper2Lib::Point64& p) { return std::llabs(p.x) <= ((int64_t)1 << 30) && std::llabs(p.y) <= ((int64_t)1 << 30); }
+}  // namespace joincheck
+
 inline void ael_sink_fn(int ev, const Clipper2Lib::ClipperBase* c, const Clipper2Lib::Active* a) {
   using namespace Clipper2Lib;
   AelTrace& t = ael_trace();
@@ -55,6 +76,22 @@ inline void ael_sink_fn(int ev, const Clipper2Lib::ClipperBase* c, const Clipper
       t.buf += " R1 " + std::to_string(ael_index_of(c, a)); t.nitems++; break;
     case verif::kSnapshot:
       ael_snapshot(c); break;
+    case verif::kJoin: {
+      // `a` is the left edge of the freshly joined pair.  Joined edges are handled as one edge from here on, which is only
+      // sound when they (nearly) coincide: they must come within 2 units of each other somewhere.
+      const Active* r = a ? a->next_in_ael : nullptr;
+      t.njoin_events++;
+      if (a && r && joincheck::small(a->bot) && joincheck::small(a->top) && joincheck::small(r->bot) && joincheck::small(r->top)) {
+        t.njoin_checked++;
+        bool near = joincheck::segs_cross(a->bot, a->top, r->bot, r->top) ||
+                    joincheck::pt_seg_within(a->bot, r->bot, r->top, 4) || joincheck::pt_seg_within(a->top, r->bot, r->top, 4) ||
+                    joincheck::pt_seg_within(r->bot, a->bot, a->top, 4) || joincheck::pt_seg_within(r->top, a->bot, a->top, 4);
+        if (!near && t.bad_join.empty())
+          t.bad_join = "joined edges (" + S(a->bot) + ")-(" + S(a->top) + ") and (" + S(r->bot) + ")-(" + S(r->top) + ") are nowhere within 2 units of each other";
+      }
+      break;
+    }
+    default: break;
   }
 }
 struct AelTraceScope {
